@@ -58,8 +58,8 @@ def cases(rng, tier):
         elif r < 0.55:
             out.append({"kind": "tree", "tree": T.tree(rng, max_entries=10, max_len=6000), "chain": G.chain(rng, aes=False), "password": rng.choice([None, None, "pw"])})
         else:
-            c = L.gen_case(rng, max_len=8000, force={"packpos": 0, "crc": rng.choice(["sub", "sub", "folder", "none"]), "mtime": "all", "empty_folder": False,
-                                                        "empties": rng.choice(["end", "start"])})
+            c = L.gen_case(rng, max_len=8000, force={"packpos": rng.choice([0, 0, 9]), "crc": rng.choice(["sub", "sub", "folder", "none", "both", "partial"]),
+                                                        "empty_folder": rng.random() < 0.3})
             for i, chn in enumerate(c["features"]["chains"]):
                 if any(x.get("newid") for x in chn):
                     c["features"]["chains"][i] = [{"m": "LZMA2"}]
